@@ -114,7 +114,9 @@ SPEC = {
                   "removal, Pending()) with arbitrary arguments: the lookup is at all times the disjoint union of the pending "
                   "and queued views, every transaction filed under its sender, one nonce per account names at most one "
                   "pooled transaction, none is both pending and queued; every pooled transaction is not stale, affordable and "
-                  "within the gas limit of the current head; Pending() returns exactly the pending view in nonce order. "
+                  "within the gas limit of the current head; Pending() returns exactly the pending view in nonce order; after every "
+                  "runReorg the slot/queue limits hold exactly as the code defines them (locals exempt, per-account minimum allowance); "
+                  "no history reaches a Go panic (total correctness, sanitised config). "
                   "The clause 'pending is gap-free from the account nonce' was REFUTED for the code before commit c78f52f (theorem + "
                   "replayable witness; the 15-line repair found here is now in /repo and is the model's gapfix branch, selected "
                   "per run by the harness); gap-freeness, queued-above-pending and soundness of the pool nonce are proved "
@@ -131,15 +133,16 @@ SPEC = {
     "translators": [["locks", "-out", "{gen}/C20Locks.v"]],
     "coq_targets": ["C20/Model.vo", "C20/Spec.vo", "C20/Lemmas.vo", "C20/ProofsWF.vo", "C20/ProofsWF2.vo",
                     "C20/ProofsWF3.vo", "C20/ProofsCaps.vo", "C20/ProofsNonce.vo", "C20/ProofsNonce2.vo",
-                    "C20/ProofsNonce3.vo", "C20/ProofsNonce4.vo", "C20/ProofsNonce5.vo", "C20/Proofs.vo",
+                    "C20/ProofsNonce3.vo", "C20/ProofsNonce4.vo", "C20/ProofsNonce5.vo", "C20/ProofsTotal.vo", "C20/Proofs.vo",
                     "gen/C20Locks.vo", "C20/Bridge.vo", "C20/Properties.vo"],
     "coq_dirs": ["C20"],
     "properties_v": "C20/Properties.v",
     "obligations": [
         "C20_views_partition", "C20_never_pending_and_queued", "C20_pooled_valid",
         "C20_pending_gapfree_refuted", "C20_pending_gapfree_holds_outside", "C20_state_clauses_after_repair",
-        "C20_pending_api_exact", "C20_lock_discipline", "C20_read_regions_do_not_write", "C20_evict_branch_as_modelled",
-        "C20_nonvacuous_partition", "C20_nonvacuous_repair", "C20_nonvacuous_holds_outside",
+        "C20_pending_api_exact", "C20_never_panics", "C20_limits_after_every_reorg",
+        "C20_account_queue_after_submission", "C20_accepted_is_pooled", "C20_lock_discipline", "C20_read_regions_do_not_write", "C20_evict_branch_as_modelled",
+        "C20_nonvacuous_partition", "C20_nonvacuous_repair", "C20_nonvacuous_holds_outside", "C20_nonvacuous_limits",
     ],
     "cases": {"quick": 300, "thorough": 4500},
     "shard": 300,
@@ -173,8 +176,12 @@ SPEC = {
                  "Pending", "eviction branch of loop", "txList.*", "txSortedMap.*", "txNoncer.*", "txLookup.*",
                  "txPricedList.Underpriced/Discard/Cap (by meaning)"],
     "partial": [
-        "limits (GlobalSlots/AccountSlots/GlobalQueue/AccountQueue after a reorg run): no Coq theorem, only the harness oracle and the model comparison",
-        "the model never reaching a Go panic (empty list in truncatePending / the tail of runReorg): not proved; no panic in any harness run",
+        "re-injection completeness (a still-valid transaction of an abandoned block is pooled after the reset unless refused for a "
+        "stated reason) is an oracle clause (default-sized pools, no competing nonce) plus the model comparison; the Coq theorem "
+        "C20_accepted_is_pooled covers only 'what add accepts is pooled'",
+        "after a reset the code gives no per-account AccountQueue bound (demoteUnexecutables re-queues without capping): "
+        "C20_account_queue_after_submission is stated for the reorg run that follows a submission",
+        "totality assumes the blockChain contract (reset's new head is known to the chain); an unknown new head inside the reorg-walk range makes Go dereference nil",
         "data races: Go memory model is outside Coq; lock inventory (C20_lock_discipline: shared fields only inside pool.mu; "
         "C20_read_regions_do_not_write: nothing reachable from an RLock-only region writes shared state, lazy caches included), "
         "the concurrent-readers scenario (every tier) and the -race runs (thorough tier) are supporting evidence",
